@@ -387,6 +387,30 @@ func compareWire(w, r []wtok) string {
 	}
 	ww, rr := squash(w), squash(r)
 	if len(ww) != len(rr) {
+		// one side may write several fields in one call (a struct, an array):
+		// compare byte totals of adjacent fixed items at the same depth and
+		// condition instead – weaker (no roles), but not a false report
+		coalesce := func(in []wtok) []wtok {
+			var out []wtok
+			for _, t := range in {
+				if n := len(out); n > 0 && t.width > 0 && out[n-1].width > 0 && out[n-1].depth == t.depth && out[n-1].cond == t.cond {
+					out[n-1].width += t.width
+					out[n-1].role = ""
+					continue
+				}
+				t.role = ""
+				out = append(out, t)
+			}
+			return out
+		}
+		cw, cr := coalesce(ww), coalesce(rr)
+		same := len(cw) == len(cr)
+		for i := 0; same && i < len(cw); i++ {
+			same = cw[i].width == cr[i].width && cw[i].depth == cr[i].depth && cw[i].cond == cr[i].cond
+		}
+		if same {
+			return ""
+		}
 		return fmt.Sprintf("writer emits %d items [%s], reader consumes %d [%s]", len(ww), wstr(ww), len(rr), wstr(rr))
 	}
 	for i := range ww {
